@@ -18,7 +18,12 @@ namespace etl {
 /// https://en.cppreference.com/w/cpp/string/wide/wmemcmp
 constexpr auto wmemcmp(wchar_t const* lhs, wchar_t const* rhs, etl::size_t count) noexcept -> int
 {
-    return etl::detail::strncmp<wchar_t, etl::size_t>(lhs, rhs, count);
+    for (etl::size_t i = 0; i != count; ++i) {
+        if (lhs[i] != rhs[i]) {
+            return lhs[i] < rhs[i] ? -1 : 1;
+        }
+    }
+    return 0;
 }
 } // namespace etl
 
